@@ -54,7 +54,7 @@ func (d HypergeometicDist) CDF(k float64) float64 {
 	}
 	// Use symmetry to compute the smaller sum.
 	flip := false
-	if ki > (d.Draws+1)/(d.N+1)*(d.K+1) {
+	if float64(ki) > float64(d.Draws+1)/float64(d.N+1)*float64(d.K+1) {
 		flip = true
 		ki = d.K - ki - 1
 		d.Draws = d.N - d.Draws
